@@ -384,7 +384,7 @@ def FT.filter (t : FT) (f : List Nat) : List Nat :=
 
 /-- `FasterTrie::size` -/
 def FT.size (t : FT) : Nat :=
-  (t.keys.map (fun r => (r.map List.length).foldl (· + ·) 0)).foldl (· + ·) 0
+  (t.keys.map (fun r => (r.map List.length).sum)).sum
 
 /-! #### reconstruct.  The three `std::shuffle`s are an external choice: an oracle (list of naturals)
     drives a selection permutation, so every shuffle outcome is reachable and every oracle gives a
